@@ -310,4 +310,182 @@ Proof.
   - destruct (arr_pass fuel (Fin 0) (Fin epsr) n rows (x, y, v, ii)) as [[[[x1 y1] v1] ii1]|] eqn:E1; [|discriminate].
     destruct (arr_pass_inv_ext epsr fuel _ _ _ _ _ _ _ _ Her HI HP E1) as [A B]. apply IH; auto.
 Qed.
+(* ---------------------------------------------------------------- the ORDER on the reserved block
+   reserved columns, newest first: the row of each lists only that column and older ones.  Hence the block has a unique
+   perfect matching (LapjvOrdForced) - it is forced in every perfect matching of the whole problem. *)
+Fixpoint OrdL (y : list nat) (l : list nat) : Prop :=
+  match l with
+  | [] => True
+  | j :: older => (forall j' c', In (j', c') (row rows (getn y j n)) -> In j' (j :: older)) /\ OrdL y older
+  end.
+Definition Ord (y : list nat) (v : list ext) : Prop :=
+  exists l, NoDup l /\ (forall j, In j l <-> ((j < n)%nat /\ gete v j = NInf)) /\ OrdL y l.
+
+Lemma OrdL_ext y y' : forall l, (forall j, In j l -> getn y' j n = getn y j n) -> OrdL y l -> OrdL y' l.
+Proof.
+  induction l as [|j older IH]; intros Hy; cbn [OrdL]; auto. intros [A B]. split.
+  - rewrite (Hy j (or_introl eq_refl)). exact A.
+  - apply IH; auto. intros k Hk. apply Hy. right. auto.
+Qed.
+
+Lemma Ord_keep y v y' v' : Ord y v ->
+  (forall j, (j < n)%nat -> (gete v' j = NInf <-> gete v j = NInf)) ->
+  (forall j, (j < n)%nat -> gete v j = NInf -> getn y' j n = getn y j n) -> Ord y' v'.
+Proof.
+  intros [l [ND [Mem OL]]] Hv Hy. exists l. split; auto. split.
+  - intros j. rewrite Mem. split; intros [A B]; split; auto; apply (Hv j A); auto.
+  - apply (OrdL_ext y y' l); auto. intros j Hj. apply Mem in Hj as [A B]. apply Hy; auto.
+Qed.
+
+Lemma Ord_keep_upd y v v' jt i : Ord y v -> length y = n -> (jt < n)%nat -> finp v jt -> finp v' jt ->
+  (forall k, k <> jt -> gete v' k = gete v k) -> Ord (upd y jt i) v'.
+Proof.
+  intros HO Ly Hjt [z Hz] [z' Hz'] Vo. apply (Ord_keep y v); auto.
+  - intros j Hj. destruct (Nat.eq_dec j jt) as [->|NE]; [rewrite Hz, Hz'; split; discriminate|rewrite (Vo j NE); tauto].
+  - intros j Hj En. rewrite getn_upd. destruct (Nat.eqb_spec j jt) as [->|NE]; [congruence|reflexivity].
+Qed.
+
+Lemma Ord_cons y v v' i j1 : Ord y v -> length y = n -> (j1 < n)%nat -> finp v j1 -> gete v' j1 = NInf ->
+  (forall k, k <> j1 -> gete v' k = gete v k) ->
+  (forall j' c', In (j', c') (row rows i) -> j' <> j1 -> gete v j' = NInf) ->
+  (forall j' c', In (j', c') (row rows i) -> (j' < n)%nat) ->
+  Ord (upd y j1 i) v'.
+Proof.
+  intros [l [ND [Mem OL]]] Ly Hj1 [z1 Hz1] En Vo AllN Rng.
+  assert (Nin : ~ In j1 l) by (intros H; apply Mem in H as [_ H]; congruence).
+  exists (j1 :: l). split; [constructor; auto|]. split.
+  - intros j. cbn [In]. rewrite Mem. split.
+    + intros [<-|[A B]]; [split; auto|]. split; auto. rewrite Vo; auto. intros ->. congruence.
+    + intros [A B]. destruct (Nat.eq_dec j1 j) as [E|NE]; [left; auto|right]. split; auto. rewrite <- (Vo j); auto.
+  - cbn [OrdL]. split.
+    + rewrite getn_upd, Nat.eqb_refl, Ly. replace (j1 <? n)%nat with true by (symmetry; apply Nat.ltb_lt; auto). cbn [andb].
+      intros j' c' Hin. destruct (Nat.eq_dec j' j1) as [->|NE]; [left; auto|right]. apply Mem. split; [eapply Rng; eauto|eapply AllN; eauto].
+    + apply (OrdL_ext y); auto. intros j Hj. rewrite getn_upd. destruct (Nat.eqb_spec j j1) as [->|NE]; [contradiction|reflexivity].
+Qed.
+
+Lemma Inv_Ord x y v : Inv n rows x y v -> Ord y v.
+Proof.
+  intros [_ [_ [[_ FV] _]]]. exists []. split; [constructor|]. split; [|exact Logic.I].
+  intros j. split; [intros []|]. intros [Hj E]. destruct (FV j Hj) as [z Hz]. congruence.
+Qed.
+
+Theorem arr_loop_inv_ord epsr : 0 <= epsr -> forall fuel todo s r,
+  InvE (a_x s) (a_y s) (a_v s) -> Ord (a_y s) (a_v s) -> Pending n (a_y s) (todo ++ a_free s) ->
+  arr_loop fuel (Fin 0) (Fin epsr) n rows todo s = Some r ->
+  InvE (a_x r) (a_y r) (a_v r) /\ Ord (a_y r) (a_v r) /\ Pending n (a_y r) (a_free r).
+Proof.
+  intros Her. induction fuel as [|f IH]; intros todo s r HI HO HP; destruct todo as [|i rest]; cbn [arr_loop]; intros E;
+    try discriminate; try (inversion E; subst; split; auto; fail).
+  pose proof HI as [Lx [Ly [PVv [SL NY]]]].
+  assert (Hi : (i < n)%nat /\ free n (a_y s) i) by (apply (proj2 HP); left; auto). destruct Hi as [Hi Hfree].
+  destruct (arr_scan_row_ext (a_x s) (a_y s) (a_v s) i (a_j1 s) (a_j2 s) HI Hi Hfree)
+    as [a [j1 [c1 [u2 [j2o [ES [Hin1 [F1 [Ea [Hmin1 U2]]]]]]]]]].
+  unfold row in ES. rewrite ES in E.
+  destruct (Rfin i j1 (Fin c1) Hin1) as [Hj1 _].
+  destruct F1 as [z1 Hz1]. pose proof (vz_fin _ _ _ Hz1) as Vz1.
+  assert (Disp : forall jd, (jd < n)%nat ->
+            (getn (a_y s) jd n <> n -> forall j', (j' < n)%nat -> getn (a_y s) j' n = getn (a_y s) jd n -> j' = jd) /\
+            (getn (a_y s) jd n <> n -> ~ In (getn (a_y s) jd n) ((i :: rest) ++ a_free s) /\ (getn (a_y s) jd n < n)%nat)).
+  { intros jd Hjd. split.
+    - intros Hn j' Hj' Ey. destruct (SL j' _ Hj' Ey Hn) as [_ [X1 _]]. destruct (SL jd _ Hjd eq_refl Hn) as [_ [X2 _]]. congruence.
+    - intros Hn. destruct (SL jd _ Hjd eq_refl Hn) as [Hlt _]. split; auto.
+      intros Hin. destruct (proj2 HP _ Hin) as [_ Fr]. apply (Fr jd Hjd). reflexivity. }
+  assert (Keep : forall jt ct, In (jt, Fin ct) (row rows i) -> finp (a_v s) jt ->
+            (forall j' c', In (j', Fin c') (row rows i) -> finp (a_v s) j' -> ct - vz (a_v s) jt <= c' - vz (a_v s) j') ->
+            InvE (upd (a_x s) i jt) (upd (a_y s) jt i) (a_v s)).
+  { intros jt ct Hint Ft Hm. destruct (Rfin i jt _ Hint) as [Hjt _].
+    apply (assign_step_ext _ _ (a_v s) (a_v s) i jt ct HI Hi Hfree Hjt Hint Ft PVv (fun k _ => eq_refl)).
+    - right. destruct Ft as [z Hz]. exists z. split; auto. rewrite (vz_fin _ _ _ Hz). lia.
+    - intros j' c' Hin' _ F'. apply Hm; auto.
+    - intros En. destruct Ft as [z Hz]. congruence. }
+  destruct U2 as [[Eu2 AllN]|[b [j2 [c2 [Eu2 [Ej2 [Hin2 [F2 [Eb [N21 [Hab Hmin2]]]]]]]]]]]; subst u2.
+  - (* no other finite candidate: the column is reserved, price -inf *)
+    cbn [eadd eltb] in E.
+    set (v' := upd (a_v s) j1 (eadd (esub (gete (a_v s) j1) PInf) (Fin a))) in *.
+    assert (Hv'j : gete v' j1 = NInf).
+    { unfold v'. rewrite gete_upd, Nat.eqb_refl, (proj1 PVv). replace (j1 <? n)%nat with true by (symmetry; apply Nat.ltb_lt; auto).
+      cbn [andb]. rewrite Hz1. reflexivity. }
+    assert (Hv'o : forall k, k <> j1 -> gete v' k = gete (a_v s) k).
+    { intros k Hk. unfold v'. rewrite gete_upd. destruct (Nat.eqb_spec k j1); [contradiction|]. reflexivity. }
+    assert (PV' : PV v').
+    { split; [unfold v'; rewrite upd_length; apply PVv|]. intros k Hk. destruct (Nat.eq_dec k j1) as [->|NE]; [right; auto|].
+      unfold finp. rewrite Hv'o by auto. apply PVv; auto. }
+    assert (HI' : InvE (upd (a_x s) i j1) (upd (a_y s) j1 i) v').
+    { apply (assign_step_ext _ _ (a_v s) v' i j1 c1 HI Hi Hfree Hj1 Hin1 (ex_intro _ z1 Hz1) PV' Hv'o (or_introl Hv'j)).
+      - intros j' c' Hin' [z Hz]. congruence.
+      - intros _ j' c' Hin'. destruct (Nat.eq_dec j' j1) as [->|NE]; auto. rewrite (Hv'o j' NE). eapply AllN; eauto. }
+    destruct (Disp j1 Hj1) as [D1 D2].
+    eapply IH; [| | |exact E]; cbn [a_x a_y a_v a_free]; [exact HI'| |].
+    { apply (Ord_cons (a_y s) (a_v s) v' i j1 HO Ly Hj1 (ex_intro _ z1 Hz1) Hv'j Hv'o).
+      - intros j' c' Hin' NE. eapply AllN; eauto.
+      - intros j' c' Hin'. apply (Rfin i j' c' Hin'). }
+    exact (pending_all n (a_y s) i j1 rest (a_free s) true Ly Hj1 HP D1 D2).
+  - subst j2o. cbn [eadd eltb] in E. rewrite Z.add_0_r in E.
+    destruct (Rfin i j2 (Fin c2) Hin2) as [Hj2 _].
+    destruct (Z.ltb_spec a b) as [Lab|Lab].
+    + (* strict: lower the price of j1, take it *)
+      set (v' := upd (a_v s) j1 (eadd (esub (gete (a_v s) j1) (Fin b)) (Fin a))) in *.
+      assert (Hv'j : gete v' j1 = Fin (z1 + - b + a)).
+      { unfold v'. rewrite gete_upd, Nat.eqb_refl, (proj1 PVv). replace (j1 <? n)%nat with true by (symmetry; apply Nat.ltb_lt; auto).
+        cbn [andb]. rewrite Hz1. reflexivity. }
+      assert (Hv'o : forall k, k <> j1 -> gete v' k = gete (a_v s) k).
+      { intros k Hk. unfold v'. rewrite gete_upd. destruct (Nat.eqb_spec k j1); [contradiction|]. reflexivity. }
+      assert (PV' : PV v').
+      { split; [unfold v'; rewrite upd_length; apply PVv|]. intros k Hk. destruct (Nat.eq_dec k j1) as [->|NE]; [left; eexists; eauto|].
+        unfold finp. rewrite Hv'o by auto. apply PVv; auto. }
+      assert (Vo : forall k, k <> j1 -> vz v' k = vz (a_v s) k) by (intros k Hk; unfold vz; rewrite Hv'o; auto).
+      assert (Vj : vz v' j1 = z1 - b + a) by (rewrite (vz_fin _ _ _ Hv'j); lia).
+      assert (HI' : InvE (upd (a_x s) i j1) (upd (a_y s) j1 i) v').
+      { apply (assign_step_ext _ _ (a_v s) v' i j1 c1 HI Hi Hfree Hj1 Hin1 (ex_intro _ z1 Hz1) PV' Hv'o).
+        - right. eexists. split; [exact Hv'j|]. lia.
+        - intros j' c' Hin' _ F'. destruct (Nat.eq_dec j' j1) as [->|NE].
+          + specialize (Hmin1 _ _ Hin' (ex_intro _ z1 Hz1)). lia.
+          + rewrite (Vo j' NE). assert (Fo : finp (a_v s) j') by (unfold finp in *; rewrite <- (Hv'o j' NE); auto).
+            specialize (Hmin2 _ _ Hin' Fo NE). lia.
+        - intros En. congruence. }
+      destruct (Disp j1 Hj1) as [D1 D2].
+      eapply IH; [| | |exact E]; cbn [a_x a_y a_v a_free]; [exact HI'| |].
+      { apply (Ord_keep_upd (a_y s) (a_v s) v' j1 i HO Ly Hj1 (ex_intro _ z1 Hz1)); [eexists; exact Hv'j|exact Hv'o]. }
+      apply pending_all; auto.
+    + assert (Eab : a = b) by lia.
+      destruct (Nat.eqb_spec (getn (a_y s) j1 n) n) as [En|Nn].
+      * assert (HI' : InvE (upd (a_x s) i j1) (upd (a_y s) j1 i) (a_v s)).
+        { apply (Keep j1 c1); auto; [exists z1; auto|]. intros j' c' Hin' F'. specialize (Hmin1 _ _ Hin' F'). lia. }
+        destruct (Disp j1 Hj1) as [D1 D2].
+        eapply IH; [| | |exact E]; cbn [a_x a_y a_v a_free]; [exact HI'| |].
+        { apply (Ord_keep_upd (a_y s) (a_v s) (a_v s) j1 i HO Ly Hj1 (ex_intro _ z1 Hz1)); [exists z1; exact Hz1|reflexivity]. }
+        pose proof (pending_all n (a_y s) i j1 rest (a_free s) (a + epsr <? b) Ly Hj1 HP D1 D2) as PA.
+        rewrite En in PA. rewrite Nat.eqb_refl in PA. exact PA.
+      * assert (HI' : InvE (upd (a_x s) i j2) (upd (a_y s) j2 i) (a_v s)).
+        { apply (Keep j2 c2); auto. intros j' c' Hin' F'. specialize (Hmin1 _ _ Hin' F'). lia. }
+        destruct (Disp j2 Hj2) as [D1 D2].
+        eapply IH; [| | |exact E]; cbn [a_x a_y a_v a_free]; [exact HI'| |].
+        { apply (Ord_keep_upd (a_y s) (a_v s) (a_v s) j2 i HO Ly Hj2 F2 F2); reflexivity. }
+        apply pending_all; auto.
+Qed.
+
+
+Theorem arr_pass_inv_ord epsr fuel x y v ii x' y' v' ii' : 0 <= epsr ->
+  InvE x y v -> Ord y v -> Pending n y ii ->
+  arr_pass fuel (Fin 0) (Fin epsr) n rows (x, y, v, ii) = Some (x', y', v', ii') ->
+  InvE x' y' v' /\ Ord y' v' /\ Pending n y' ii'.
+Proof.
+  intros Her HI HO HP. unfold arr_pass.
+  destruct (arr_loop fuel (Fin 0) (Fin epsr) n rows ii (mkArr x y v None None [])) as [r|] eqn:E; [|discriminate].
+  intros E2. inversion E2; subst.
+  destruct (arr_loop_inv_ord epsr Her fuel ii (mkArr x y v None None []) r) as [A [O B]]; auto.
+  { cbn [a_y a_free]. rewrite app_nil_r. exact HP. }
+  split; auto. split; auto. eapply Pending_perm; [|exact B]. apply Permutation.Permutation_rev.
+Qed.
+
+Theorem arr_passes_inv_ord epsr fuel : 0 <= epsr -> forall k x y v ii x' y' v' ii',
+  InvE x y v -> Ord y v -> Pending n y ii ->
+  arr_passes k fuel (Fin 0) (Fin epsr) n rows (x, y, v, ii) = Some (x', y', v', ii') ->
+  InvE x' y' v' /\ Ord y' v' /\ Pending n y' ii'.
+Proof.
+  intros Her. induction k as [|k IH]; intros x y v ii x' y' v' ii' HI HO HP; cbn [arr_passes].
+  - intros E; inversion E; subst; auto.
+  - destruct (arr_pass fuel (Fin 0) (Fin epsr) n rows (x, y, v, ii)) as [[[[x1 y1] v1] ii1]|] eqn:E1; [|discriminate].
+    destruct (arr_pass_inv_ord epsr fuel _ _ _ _ _ _ _ _ Her HI HO HP E1) as [A [O B]]. apply IH; auto.
+Qed.
 End ArrExt.
